@@ -73,7 +73,8 @@ def check_guards(facts, chk):
     chk.floor('C01.guard', 'guarded sequence reads in build', len(reads), 2)
     # loop bound i < k
     heads = [b.idx for b in build.blocks if b.idx in build.live_blocks() and b.term.k == 'switch' and
-             eb.operand(b.term.discr)[0] == 'bin' and eb.operand(b.term.discr)[1] == 'Lt' and build.in_cycle(b.idx)]
+             eb.operand(b.term.discr)[0] == 'bin' and eb.operand(b.term.discr)[1] == 'Lt' and build.in_cycle(b.idx) and
+             show(eb.operand(b.term.discr)[2]) == 'i' and show(eb.operand(b.term.discr)[3]) == 'k']
     if len(heads) != 1:
         raise AnchorLost('build: loop head `i < k` not found (%d candidates)' % len(heads))
     he = eb.operand(build.blocks[heads[0]].term.discr)
